@@ -579,4 +579,24 @@ def load_repo(root=None):
             from . import normalize
             repo.normal_notes = normalize.normalize(repo, _rebuild)
         _repo_cache[root] = repo
+        _fill_signatures(repo)
     return _repo_cache[root]
+
+
+def _fill_signatures(repo):
+    """Bare-name signatures of toolkit functions / classes for straight.py's canonical call form (unique names only)."""
+    from . import straight
+    seen = {}
+    for rel, m in repo.modules.items():
+        if not rel.startswith("toolkit/"):
+            continue
+        for nm, fi in m.functions.items():
+            seen.setdefault(nm, []).append(list(fi.params))
+        for cn, ci in m.classes.items():
+            init = ci.methods.get("__init__")
+            if init is not None and not init.node.args.kwonlyargs:
+                seen.setdefault(cn, []).append(list(init.params[1:]))
+    straight.SIGNATURES.clear()
+    for nm, sigs in seen.items():
+        if len(sigs) == 1:
+            straight.SIGNATURES[nm] = sigs[0]
